@@ -135,7 +135,10 @@ KWS = {"k1": ("k1",), "k2": ("k1", "k2"), "o1": (), "o2": ("maxopt40",),
        # keywords that differ only far inside one long (block-type) keyword
        "kl1": ("k1", _LONG + "%geom maxiter 100 end"), "kl2": ("k1", _LONG + "%geom maxiter 200 end"),
        # Keyword OBJECTS with the same name and a different string for the method ("F:<name>:<orca string>")
-       "kf1": ("F:pbe:PBE",), "kf2": ("F:pbe:BLYP",)}
+       "kf1": ("F:pbe:PBE",), "kf2": ("F:pbe:BLYP",),
+       # keyword objects that differ only in their KIND, with no keyword at all (the xtb defaults) or the same one
+       "e_sp": ("KIND:sp",), "e_opt": ("KIND:opt",), "e_grad": ("KIND:grad",), "e_hess": ("KIND:hess",),
+       "k1_grad": ("KIND:grad", "k1")}
 
 
 def spec(name, meth, kw, sp):
@@ -318,7 +321,9 @@ def impl_setup():
                 mol.hessian = Hessian(0.5 * (H + H.T), atoms=mol.atoms, units="Ha/ang^2")
 
     amethods.get_lmethod = lambda: Surf()      # the optimiser's initial low-level Hessian
-    _IMPL.update(Surf=Surf, OptKeywords=OptKeywords, MaxOptCycles=MaxOptCycles)
+    from autode.wrappers.keywords import GradientKeywords
+    _IMPL.update(Surf=Surf, OptKeywords=OptKeywords, MaxOptCycles=MaxOptCycles, GradKeywords=GradientKeywords,
+                 HessKeywords=HessianKeywords)
     _IMPL.update(ade=ade, aex=aex, Atom=Atom, Calculation=Calculation, ORCA=ORCA, XTB=XTB, PointCharge=PointCharge,
                  SPK=SinglePointKeywords, smd=smd, cur=cur)
     return _IMPL
@@ -340,14 +345,16 @@ def output_text(prog, j, normal, k):
 
 
 def make_keywords(I, kw):
-    out = []
+    out, cls = [], I["SPK"]
     for k in kw:
-        if k.startswith("F:"):
+        if k.startswith("KIND:"):          # the keyword TYPE (possibly with no keyword at all: the xtb defaults)
+            cls = {"sp": I["SPK"], "opt": I["OptKeywords"], "grad": I["GradKeywords"], "hess": I["HessKeywords"]}[k[5:]]
+        elif k.startswith("F:"):
             _, name, orca = k.split(":")
             out.append(I["Functional"](name, orca=orca))
         else:
             out.append(k)
-    return I["SPK"](out)
+    return cls(out)
 
 
 def build(sp):
@@ -585,6 +592,11 @@ def oracle_sequence(U, ops, res):
         rk = tuple(sorted((a, repr(b)) for a, b in prop_fields(sp).items()))     # the request, by the property's fields
         ws = any(c.isspace() for c in sp["name"])
         ws_seen = ws_seen or ws
+        if sn["out"] is None:
+            # an executor without files of its own (numerical Hessian / gradient executors never consult
+            # the registry and write nothing under their name; or the run failed before a file name was
+            # fixed): its name is not used for any file, so there is nothing to share
+            continue
         st_k = res["starts"][k] if "starts" in res else None
         first_start.setdefault(rk, st_k)
         first_j.setdefault(rk, j)
@@ -1184,6 +1196,26 @@ def real_wrapper_stream(ctx, U, full, seen):
             report_oracle(ctx, U, ops, res["oracle"], "real-wrapper", seen)
 
 
+def keyword_kind_stream(ctx, full, seen):
+    """Keyword objects of every kind, EMPTY (what XTB().keywords.sp/opt/grad/hess are) or with the same
+    single keyword: the kind is part of the calculation.  Oracle only: with the stand-in output an
+    optimisation / gradient / Hessian request cannot set its properties, which the Coq model of
+    single points does not describe; names, files, reuse and whose energy was parsed are checked."""
+    KU = [spec("a", "xtb", k, "base") for k in ("e_sp", "e_opt", "e_grad", "e_hess", "k1", "k1_grad")]
+    for sp in KU:
+        sp["full"] = full
+    cl = [(j, "ONormal", "CNone") for j in range(len(KU))]
+    seqs = all_sequences(cl, 3 if not full else 4)
+    results = run_sequences(ctx, KU, seqs, "kinds")
+    for ops, res in zip(seqs, results):
+        if res.get("skipped") or res.get("hang"):
+            continue
+        ctx.count("keyword-kinds", tuple(ops), nontrivial=True,
+                  sample={"ops": [[KU[j]["tag"], oc, cm] for j, oc, cm in ops], "names": [o[0] for o in res["obs"]]})
+        if res["oracle"]:
+            report_oracle(ctx, KU, ops, res["oracle"], "keyword-kinds", seen)
+
+
 def concurrent_stream(ctx, full, seen):
     """W forked workers x rounds, all calling generate_input() at the same moment with pairwise
     distinct names.  Direct oracle: no registry line lost, duplicated or corrupted; model: the file
@@ -1361,7 +1393,8 @@ def run(ctx):
         pre, terms, descr, _ = correspondence_sequences(ctx, U, full, seen, nm)
         ctx.log("sequences done " + _cpu())
         real_wrapper_stream(ctx, U, full, seen)
-        ctx.log("real-wrapper stream done " + _cpu())
+        keyword_kind_stream(ctx, full, seen)
+        ctx.log("real-wrapper and keyword-kind streams done " + _cpu())
         rterms, rdescr = restart_stream(ctx, U, full, seen, nm)
         ctx.log("restart done " + _cpu())
     except ImplementationHang as e:
@@ -1428,6 +1461,8 @@ def replay(ctx, obj):
         print("replay:", rep["ops"], "-> reproduces:", r)
         return 1 if any(r.values()) else 0
     U = universe(rep.get("universe_full", False))
+    if rep.get("stream") == "keyword-kinds":
+        U = [spec("a", "xtb", k, "base") for k in ("e_sp", "e_opt", "e_grad", "e_hess", "k1", "k1_grad")]
     idx = {sp["tag"]: j for j, sp in enumerate(U)}
     ops = [(idx[t], oc, cm) for t, oc, cm in rep["ops"]]
     res = _job_sequences((U, [ops], os.path.join(ctx.work, "replay"), rep.get("stream", "").startswith("real-wrapper")))[0]
